@@ -144,6 +144,24 @@ def run(p, report, tier):
             zeroed = True
     report.add("R18.3", "simple_batch", "NaN probabilities zeroed before the draw", f"{sb.file}:{ch.lineno}", zeroed,
                detail=f"p = `{pname}`")
+    # ... and nothing writes into the probabilities between the zeroing and the draw (a uniform
+    # fallback `p[:] = 1 / len(p)` would give the NaN entries mass again)
+    zst = [n for n in ast.walk(sb.node) if isinstance(n, ast.Assign) and pname and any(
+        isinstance(t, ast.Subscript) and base_name(t) == pname and "isnan" in ast.unparse(t.slice) for t in n.targets)
+        and isinstance(n.value, ast.Constant) and n.value.value == 0]
+    if zst:
+        z0 = zst[0]
+        later = [n for n in ast.walk(sb.node) if isinstance(n, (ast.Assign, ast.AugAssign)) and n is not z0
+                 and z0.lineno < n.lineno < ch_stmt.lineno and any(
+                     base_name(t) == pname for t in (n.targets if isinstance(n, ast.Assign) else [n.target]))]
+        later = [n for n in later if not (isinstance(n, ast.AugAssign) and isinstance(n.op, (ast.Div, ast.Mult)))
+                 and not (isinstance(n, ast.Assign) and isinstance(n.value, ast.BinOp) and isinstance(n.value.op, (ast.Div, ast.Mult))
+                          and isinstance(n.value.left, ast.Name) and n.value.left.id == pname)]
+        report.add("R18.3", "simple_batch", "zeroed NaN probabilities are not overwritten before the draw",
+                   f"{sb.file}:{(later[0] if later else z0).lineno}", not later,
+                   detail="only scaled afterwards" if not later else
+                   f"`{norm_stmt(later[0], 60)}` writes into the probabilities after the NaN entries were zeroed: "
+                   "a NaN (non-selectable) entry can be drawn")
     # p is a pure scaling of the utilities (no additive shift: a zero weight stays zero)
     pdefs = [n for n in ast.walk(sb.node) if isinstance(n, ast.Assign) and pname and any(
         isinstance(t, ast.Name) and t.id == pname for t in n.targets)]
